@@ -464,8 +464,10 @@ impl<'input> Tokenizer<'input> {
                     }
                     continue;
                 } else if c == 'r' {
+                    // a raw string: r"..." or r#"..."# (`idx` is the position of the `r`,
+                    // which is what `regex_literal` counts the hashes from)
                     self.bump();
-                    if let Some((idx, '#')) = self.lookahead {
+                    if let Some((_, '#' | '"')) = self.lookahead {
                         self.regex_literal(idx)?;
                     }
                     continue;
